@@ -397,10 +397,18 @@ class C02(Check):
             os.write(fd, blob)
             os.close(fd)
             try:
-                for kind in ('BytesIO', 'BufferedReader-over-BytesIO', 'file-unbuffered', 'file-buffered'):
+                import bz2
+                import gzip
+                import lzma
+                for mod, ext in ((gzip, '.gz'), (bz2, '.bz2'), (lzma, '.xz')):
+                    with mod.open(path + ext, 'wb') as zf:
+                        zf.write(blob)
+                for kind in ('BytesIO', 'BufferedReader-over-BytesIO', 'file-unbuffered', 'file-buffered', 'gzip-file', 'bz2-file', 'lzma-file'):
                     for entry in ('kd', 'kd-same-parser', 'facade'):
                         st = {'BytesIO': lambda: io.BytesIO(blob), 'BufferedReader-over-BytesIO': lambda: io.BufferedReader(io.BytesIO(blob), buffer_size=128),
-                              'file-unbuffered': lambda: open(path, 'rb', buffering=0), 'file-buffered': lambda: open(path, 'rb')}[kind]()
+                              'file-unbuffered': lambda: open(path, 'rb', buffering=0), 'file-buffered': lambda: open(path, 'rb'),
+                              'gzip-file': lambda: gzip.open(path + '.gz', 'rb'), 'bz2-file': lambda: bz2.open(path + '.bz2', 'rb'),
+                              'lzma-file': lambda: lzma.open(path + '.xz', 'rb')}[kind]()
                         p1 = KdBufParser({}, {})
                         f1 = PyKdebugParser()
                         got = []
@@ -423,7 +431,9 @@ class C02(Check):
                         if err or got != [exp, exp, exp]:
                             acc.violation('v2-stream-cannot-be-rewound-and-parsed-again', {'kind': 'long', 'stream': kind, 'entry': entry}, {'err': err, 'rounds': [len(g) for g in got]})
             finally:
-                os.unlink(path)
+                for ext in ('', '.gz', '.bz2', '.xz'):
+                    if os.path.exists(path + ext):
+                        os.unlink(path + ext)
             # the dump does not begin at stream position 0 (every pad kind, with and without thread map)
             for off in (1, 7, 8, 63, 64, 0x100, 0x120, 0x123, 4000, 4091, 4096, 4100):
                 for tm in ((), (0,), (0, 1)):
